@@ -15,11 +15,13 @@ CLAUSES = {
     "Cl_ArgsUnchanged": "membrane, mixture, curve set, conditions and measurement list deeply unchanged by every call",
     "Cl_BuiltinsUnchanged": "built-in components and mixtures never modified",
     "Cl_SameAsFresh": "each call returns bit-identical results to the same call made first in a fresh state",
+    "Cl_CallsKeepHeld": "sessions with the caller's own in-place edits: every call leaves the shared objects holding what the caller put there (= what a pristine process holds after the same edits)",
+    "Cl_SameAsFreshOnHeld": "... and returns bit-identical results to the same call made first in a pristine process on objects built to hold the same values",
 }
 MANIFEST = {
     "text": "TLC model-checks the session machine tla/Session.tla (no call changes an object, so every result equals the fresh-session "
             "result; argument-modifying entry points are a negative configuration) and generates call histories of length 2-12 that are "
-            "replayed on shared real objects with deep digests before/after every call and a forked pristine-process oracle for every call. tlapm proves ArgsUnchanged and SameAsFresh for arbitrary sets of entry points and objects and any number of calls.",
+            "replayed on shared real objects with deep digests before/after every call and a forked pristine-process oracle for every call; tla/SessionEdit.tla adds the caller's own in-place edits of the shared objects between calls (an entry point answering from an identity-keyed cache is its negative configuration), its simulated histories are replayed the same way with the oracle applying the same edits. tlapm proves ArgsUnchanged and SameAsFresh for arbitrary sets of entry points and objects and any number of calls.",
     "note": "Histories from TLC's simulator (seeded). 'Fresh' is a forked pristine process, not a cold interpreter start.",
     "technique": "TLA+ session machine + TLC (exhaustive + simulation-generated histories replayed) + TLC validation of recorded digests + TLAPS proofs about the same specification module (tlapm)",
 }
@@ -32,7 +34,11 @@ TLAPS = [('SessionProofs.tla', ['Session.tla'])]
 def leg_a(ctx):
     return [{"spec": "MC_Session.tla", "cfg": "MC_Session.cfg", "coverage": True, "workers": 4,
              "what": "all histories of <= 3 calls over 27 entry points"},
-            {"spec": "MC_Session.tla", "cfg": "MC_Session_neg_d5.cfg", "expect": "violates:ArgsUnchanged,SameAsFresh", "workers": 2}]
+            {"spec": "MC_Session.tla", "cfg": "MC_Session_neg_d5.cfg", "expect": "violates:ArgsUnchanged,SameAsFresh", "workers": 2},
+            {"spec": "MC_SessionEdit.tla", "cfg": "MC_SessionEdit.cfg", "workers": 4,
+             "what": "sessions in which the caller edits shared objects in place between calls (SessionEdit.tla): all histories of <= 5 steps"},
+            {"spec": "MC_SessionEdit.tla", "cfg": "MC_SessionEdit_neg_stale.cfg", "expect": "violates:SameAsFreshOnHeld", "workers": 2,
+             "what": "an entry point answering from a cache keyed by object identity (named wrong design) must be caught"}]
 
 
 def run(ctx, pool):
@@ -55,6 +61,25 @@ def run(ctx, pool):
     tw = TraceWriter()
     for traces in core.parallel("harness.rec_session", "session_job", jobs):
         tw.traces.extend(traces)
+    # sessions with the caller's own edits: histories of calls and in-place edits simulated by TLC from SessionEdit.tla
+    ehs = []
+    for n, num in ((6, ctx.n(16, 150)), (10, ctx.n(12, 150))):
+        r = tlc.run("MC_SessionEdit.tla", "MC_SessionEdit_sim%d.cfg" % n, workers=1, workdir=ctx.work,
+                    extra=("-simulate", "num=%d" % num, "-depth", str(n + 2), "-seed", str(ctx.seed + 100 + n)))
+        gen_states += r.generated
+        seen = set()
+        for ln in r.printed:
+            m = re.match(r'^<<"HISTORY", "(.*)">>$', ln)
+            if m and m.group(1) not in seen:
+                seen.add(m.group(1))
+                h = json.loads(m.group(1).replace('\\"', '"'))
+                if any(q["op"] == "edit" for q in h) and any(q["op"] == "call" for q in h):
+                    ehs.append(h)
+    if not ehs:
+        raise core.MachineryFailure("TLC simulation produced no edit-session histories")
+    per = max(1, len(ehs) // 16)
+    for traces in core.parallel("harness.rec_session", "edit_session_job", [(ctx.seed * 4093 + j, ehs[j:j + per]) for j in range(0, len(ehs), per)]):
+        tw.traces.extend(traces)
     res = core.validate_traces(None, ctx, tw, pool, "Trace_Session.tla", "Trace_Session.cfg")
     hist = core.event_histogram(tw)
     res["states"] += gen_states
@@ -62,14 +87,15 @@ def run(ctx, pool):
     for tr in tw.traces:
         for e in tr[1:]:
             entries[e["entry"]] = entries.get(e["entry"], 0) + 1
+    edit_calls = sum(1 for tr in tw.traces for e in tr if e.get("ev") == "EditSessCall" and e.get("edits_so_far", 0) > 0)
     res["coverage"] = {
         "evaluations": hist.get("SessCall", 0), "distinct_nontrivial": len({json.dumps(h) for h in hs}),
         "rule": "call histories of length 2, 4, 8 and 12 over 27 modelling entry points (five of them failing calls or calls on a full-range grid with both pure end points) generated by TLC's simulator from Session.tla; each "
                 "replayed on one shared set of argument objects (built-in mixture, membrane, 1-2-curve set, conditions, measurement list); "
                 "every call's result digest compared with the digest from a forked pristine process; distinct = distinct histories",
-        "tlc_generated_histories": len(hs), "calls_per_entry": entries, "events": hist, "clauses": CLAUSES,
+        "tlc_generated_histories": len(hs), "tlc_generated_edit_histories": len(ehs), "calls_made_after_an_edit": edit_calls, "calls_per_entry": entries, "events": hist, "clauses": CLAUSES,
         "samples": [[e.get("entry", e.get("ev")) for e in tw.traces[0]], tw.traces[0][1]],
     }
-    res["required_events"] = {k: hist.get(k, 0) for k in ("SessStart", "SessCall")}
+    res["required_events"] = {k: hist.get(k, 0) for k in ("SessStart", "SessCall", "EditSessCall")}
     res["trace_lookup"] = lambda v: [[e.get("entry", "start") for e in tw.traces[v["record"]["t"]]], v["record"]]
     return res
